@@ -16,29 +16,12 @@ import re
 from checks import promsel as P
 
 
-def absent_label_cause(c):
-    """some matcher accepts the empty string while a stored series lacks the label"""
-    for sel in c.get("matchers") or []:
-        for m in sel:
-            v, op = m["v"], m["op"]
-            try:
-                accepts = (op == "=" and v == "") or (op == "!=" and v != "") or \
-                          (op == "=~" and re.fullmatch(v, "") is not None) or (op == "!~" and re.fullmatch(v, "") is None)
-            except re.error:
-                accepts = True
-            if accepts and any(m["n"] not in [k for k, _ in s["labels"]] for s in c["db"]["series"]):
-                return True
-    return False
-
-
 def points(series):
     return {(json.dumps(s["labels"]), p["t"]): p["v"] for s in series or [] for p in s.get("points") or []}
 
 
 def classify(c):
     """why got != want may be a recorded finding; None = not explained"""
-    if absent_label_cause(c):
-        return "absent-label-not-selected"
     sqls = c.get("sqls") or []
     bucketed = any(" GROUP BY timestamp_ms, fingerprint" in s for s in sqls)
     filtered = any("timestamp_ms % " in s for s in sqls)
